@@ -176,7 +176,7 @@ def run_case(case, res):
             res.query("zero-weights-give-bias", "BIT", v, secs, sub=f"frozen={frozen}" + (" [known region: float8 zero rows]" if known else ""))
             if v == "sat":
                 xv, bv = api.model_values(b, mdl, X), api.model_values(b, mdl, B)
-                res.candidate(("region-witness:zero-scale-float8" if known else "zero-layer"), "BIT", dict(kind="zero-layer", module=case["module"], x=api.enc_tensor(api.tensor_from_values(xv, tuple(x.shape), dt)), bias=api.enc_tensor(api.tensor_from_values(bv, (2,), dt)), qtype=case["qtype"], frozen=frozen), exact=not known)
+                res.candidate(("region-witness:zero-scale-float8" if known else "zero-layer"), "BIT", dict(kind="zero-layer", module=case["module"], x=api.enc_tensor(api.tensor_from_values(xv, tuple(x.shape), dt)), bias=api.enc_tensor(api.tensor_from_values(bv, (2,), dt)), qtype=case["qtype"], frozen=frozen), exact=(not known and not m.opaque_ops))
         return
 
     if case["kind"] == "calib":
